@@ -33,7 +33,7 @@ TABLE = [
     (r"^UnsealedState::apply_tip_909\|assert\|Overflow\(Shr\)\|1048576,Div\(", "assume", "halving index < 128, i.e. height < TIP-909 + 1.28e8 (bounded horizon; latent afterwards)"),
     (r"^UnsealedState::apply_tip_909\|assert\|Overflow\(Sub\)\|Shr\(1048576", "inv", "x − (x >> k) and x − x/2 cannot underflow"),
     # (removed with repair e9bdbb6, D20) fee_pool + MEL taken from the pool: saturating now; the plain `+=` is an unlisted site again
-    (r"^UnsealedState::apply_tip_909\|extern\|swap_many\|", "priced-pool", "MEL/SYM is created by create_builtins at the chain's first seal with 10^9 unowned liquidity per side (C16.R2) and swaps are assumed never to drain a side to zero; ERG/SYM can be pre-empted by users before TIP-902 and emptied (finding D19), so its use is guarded by a reserve test (evaluated here)"),
+    (r"^UnsealedState::apply_tip_909\|extern\|swap_many\|", "priced-pool", "every use of a built-in pool's reserves as a divisor is behind a test that both reserves are non-zero (evaluated here): ERG/SYM can be pre-empted before TIP-902 and emptied (D19), and on faucet-enabled networks any pool can be emptied with forged liquidity tokens (D21)"),
     (r"^UnsealedState::apply_tip_909\|unwrap\|unwrap\|SmtMapping::get\((\$1|self)\.pools, PoolKey::new\(Denom::(Mel|Erg)\{\}, Denom::Sym\{\}\)\)", "inv", "create_builtins dominates in seal (C16.R1/R2); ERG/SYM exists because TIP-902 (180000) activates before TIP-909 (950000) and both use the same activation rule"),
     # (removed with repair e9bdbb6, D20) fee_pool/65536 + tips: saturating now; the plain `+` is an unlisted site again (tips of faucet transactions are minted)
     (r"^UnsealedState::collect_proposer_action_fee\|extern\|<melstructs::CoinValue as std::ops::SubAssign>::sub_assign\|(self|\$1)\.fee_pool,Shr\((self|\$1)\.fee_pool\.0, 16\)", "inv", "x − (x >> 16) cannot underflow"),
@@ -67,11 +67,11 @@ TABLE = [
     (r"^melmint::multiply_frac\|extern\|new\|Ratio::numer\(\$2\),Ratio::denom\(\$2\)", "inv", "the denominator of an existing Ratio is non-zero"),
     (r"^melmint::process_(swaps|deposits|withdrawals)_for_single_pool(::c\d)?\|index\|index(_mut)?\|(\$2|elem\(\$3\))\.outputs,[01]$", "selected", "members of the list passed the selection closure, which requires enough outputs (verified here by forcing the selection's length tests)"),
     (r"^melmint::process_deposits_for_single_pool\|extern\|deposit\|pool_state", "assume", "both deposited totals are > 0 (guard) and a pool with outstanding liquidity has non-zero reserves"),
-    (r"^melmint::process_pegging\|extern\|(<num::rational::Ratio<T> as std::ops::Div>::div|implied_price|recip|swap_many)\|", "priced-pool", "MEL/SYM and MEL/ERG keep non-zero reserves (created first with unowned liquidity, C16.R2; swaps assumed never to drain a side); the inflator is positive; the ERG/SYM price is used only behind a reserve test (evaluated here: D19)"),
+    (r"^melmint::process_pegging\|extern\|(<num::rational::Ratio<T> as std::ops::Div>::div|implied_price|recip|swap_many)\|", "priced-pool", "the inflator is positive; every price is used only behind a test that both reserves of its pool are non-zero (evaluated here: D19, D21)"),
     (r"^melmint::process_pegging\|unwrap\|unwrap\|SmtMapping::get\(state\.pools, PoolKey::new\(", "inv", "create_builtins ran first in preseal_melmint (same tip_902 condition for ERG/SYM)"),
     (r"^melmint::process_swaps_for_single_pool\|extern\|swap_many\|pool_state", "guarded-swap", "both sides are non-zero after adding the inputs (verified here by forcing the guard)"),
     (r"^melmint::process_(swaps|withdrawals)_for_single_pool\|unwrap\|unwrap\|SmtMapping::get\(\$2\.pools, \$1\)", "inv", "the pool key comes from selected requests, whose selection requires state.pools.get(key) (C15.R1 pool-exists); pools are never deleted (C16.R3)"),
-    (r"^melmint::process_withdrawals_for_single_pool\|extern\|withdraw\|pool_state", "assume", "total_liqs > 0 (guard) and liquidity tokens in coins never exceed the pool's recorded liquidity (C16's undecided clause)"),
+    (r"^melmint::process_withdrawals_for_single_pool\|extern\|withdraw\|pool_state", "guarded-withdraw", "PoolState::withdraw asserts liqs ≤ self.liqs and divides by self.liqs: reached only with 0 < total_liqs ≤ pool_state.liqs (evaluated here; liquidity tokens can exceed what the pool issued wherever Faucet transactions can mint them: D21)"),
     (r"^opcode::OpCode::(decode|encode)\|assert\|Overflow\(Sub\)\|32,", "inv", "at most 32 leading zero bytes"),
     (r"^smtmapping::SmtMapping::(get|get_with_proof|val_iter::c0)\|unwrap\|(expect|unwrap)\|stdcode::deserialize\(", "inv", "a typed mapping only stores stdcode(V) (C07.R4)"),
     (r"^executor::Executor::update_pc_state\|assert\|Overflow\(Sub\)", "inv", "dominated by iterations_left > 0"),
@@ -128,19 +128,30 @@ def _resolved_sig(b, e):
     return out
 
 
+def _pools_named(s_):
+    """built-in pools a resolved signature names: subset of {'MS', 'ME', 'ES'}"""
+    out = set()
+    if "Denom::Erg{}, Denom::Sym{}" in s_ or "Denom::Sym{}, Denom::Erg{}" in s_ and "Denom::Mel{}, elem(array(Denom::Sym{}, Denom::Erg{}))" not in s_:
+        out.add("ES")
+    if "Denom::Mel{}, Denom::Sym{}" in s_ or "Denom::Sym{}, Denom::Mel{}" in s_:
+        out.add("MS")
+    if "Denom::Mel{}, Denom::Erg{}" in s_ or "Denom::Erg{}, Denom::Mel{}" in s_:
+        out.add("ME")
+    if "Denom::Mel{}, elem(array(Denom::Sym{}, Denom::Erg{}))" in s_ or "Denom::Mel{}, elem(array(Denom::Erg{}, Denom::Sym{}))" in s_:
+        out |= {"MS", "ME"}          # `for other in [Sym, Erg] { pools.get(PoolKey::new(Mel, other)) .. }`
+    return out
+
+
 def _priced_pool_ok(site):
-    """True: the site does not use the ERG/SYM pool, or is unreachable when either of its reserves is zero.  False: it uses ERG/SYM unguarded.
-    None: not decided."""
+    """True: every use this site makes of a built-in pool's reserves as a divisor is unreachable when either reserve of that pool is zero.
+    False: some pool is used unguarded.  The pools a site depends on: those it names; in process_pegging, where everything after the price
+    computation depends on the prices, all pools read under the TIP-902 setting in force."""
     b = site.body
     full = _resolved_sig(b, site.expr) if site.expr is not None else " ".join(_resolved_sig(b, o) for o in site.operands)
-    uses = _is_ergsym(full)
-    if not uses:
-        # a value computed from the ERG/SYM price further up (x_sd): every use in process_pegging after the TIP-902 branch depends on it
-        uses = b.nname.endswith("process_pegging") and not ("Denom::Mel{}" in full)
-    if not uses:
-        return True
+    named = _pools_named(full)
+    pegging = b.nname.endswith("process_pegging")
     want = lambda c: c.startswith("Eq(0, ") and (c.endswith(".lefts)") or c.endswith(".rights)"))
-    sides = {}
+    groups = {}
     for e, c, bi in q.pick_atoms(b, want):
         if not want(c):
             continue
@@ -148,19 +159,59 @@ def _priced_pool_ok(site):
         if not cm:
             continue
         subj = cm[2] if q.const_val(cm[1]) == 0 else cm[1]
-        if _is_ergsym(_resolved_sig(b, subj)):
-            sides.setdefault("lefts" if c.endswith(".lefts)") else "rights", []).append(e)
-    if set(sides) != {"lefts", "rights"}:
+        for pk in _pools_named(_resolved_sig(b, subj)):
+            groups.setdefault(pk, {}).setdefault("lefts" if c.endswith(".lefts)") else "rights", []).append(e)
+    t902 = [e for bi, e in q.call_exprs(b, "UnsealedState::tip_902")]
+    for flag in ((1, 0) if t902 else (None,)):
+        base = {e: flag for e in t902} if flag is not None else {}
+        fb = force(b, base)
+        if site.bb not in fb.reach:
+            continue                                    # not executed under this TIP-902 setting
+        # pools read at all under this setting (a value joined from both branches names the pools of both; only one branch runs)
+        used = set()
+        for gb, ge in q.call_exprs(b, "SmtMapping::get"):
+            if gb in fb.reach:
+                used |= _pools_named(sig(ge))
+        need = set(named) & used if t902 else set(named)
+        if pegging:
+            need |= ({"ES"} if flag == 1 else {"MS", "ME"})
+        for pk in sorted(need):
+            sides = groups.get(pk, {})
+            if set(sides) != {"lefts", "rights"}:
+                return False
+            for side, es in sides.items():
+                tbl = dict(base)
+                tbl.update({e: 1 for e in es})
+                if site.bb in force(b, tbl).reach:
+                    return False
+    return True
+
+
+def _withdraw_guard_ok(site):
+    """the call pool.withdraw(n) is unreachable when n > pool.liqs and when n == 0"""
+    b = site.body
+    if site.expr is None or site.expr[0] != "call" or len(site.expr[2]) < 2:
         return False
-    # the ERG/SYM price is used only once TIP-902 is active: decide under tip_902() = true (all calls of it agree)
-    t902 = {e: 1 for bi, e in q.call_exprs(b, "UnsealedState::tip_902")}
-    for side, es in sides.items():
-        tbl = dict(t902)
-        tbl.update({e: 1 for e in es})
-        f = force(b, tbl)
-        if site.bb in f.reach:
+    pool, n = sig(q.novers(site.expr[2][0])), sig(q.novers(site.expr[2][1]))
+    over = "Lt(%s.liqs, %s)" % (pool, n)
+    zero = ("Eq(0, %s)" % n, "Eq(%s, 0)" % n)
+    got = {"over": [], "zero": []}
+    for e, c, bi in q.pick_atoms(b, lambda c: sig_novers_str(c) == over or sig_novers_str(c) in zero):
+        cs = sig_novers_str(c)
+        if cs == over:
+            got["over"].append(e)
+        elif cs in zero:
+            got["zero"].append(e)
+    if not got["over"] or not got["zero"]:
+        return False
+    for es in got.values():
+        if site.bb in force(b, {e: 1 for e in es}).reach:
             return False
     return True
+
+
+def sig_novers_str(c):
+    return re.sub(r"@\d+", "", c)
 
 
 def _swap_guard_ok(site):
@@ -252,6 +303,10 @@ def r1_inventory(ctx):
             else:
                 r.check(okp, "site/" + key[:150], "inv: " + why, "%s uses the reserves of the ERG/SYM pool as a divisor with no test that they are non-zero: a pool pre-empted by a user before TIP-902 "
                         "and then emptied makes every later seal panic (%s)" % (s.body.nname.split("::")[-1], s.what), s.where())
+        elif verdict == "guarded-withdraw":
+            okw = _withdraw_guard_ok(s)
+            r.check(okw, "site/" + key[:150], "inv: " + why, "PoolState::withdraw can be reached with more liquidity tokens than the pool has issued (its assertion aborts sealing): "
+                    "the withdrawal step does not compare the batch total with the pool's recorded liquidity", s.where())
         elif verdict == "guarded-swap":
             ok = _swap_guard_ok(s)
             r.check(ok, "site/" + key[:150], "inv: " + why, "swap_many can be reached with an empty side (division by zero in PoolState::swap_many)", s.where())
